@@ -315,7 +315,7 @@ PROP_FAMILIES = {
 TLC_NAMES = {
     "C01": (["Inv_C01", "LedgerInv"], ["LedgerRefined"]), "C02": ([], ["P_C02"]), "C03": (["Inv_C03", "LedgerInv"], ["P_C03", "LedgerRefined"]), "C04": ([], ["P_C04"]),
     "C05": ([], ["P_C05"]), "C06": ([], ["P_C06"]), "C07": ([], ["P_C07"]), "C08": (["Inv_C08"], ["P_C08"]),
-    "C09": ([], ["P_C09"]), "C10": (["Inv_C10"], ["P_C10"]), "C11": (["Inv_C11"], ["P_C11"]),
+    "C09": ([], ["P_C09"]), "C10": (["Inv_C10"], ["P_C10"]), "C11": (["Inv_C11", "SchedulerInv"], ["P_C11", "SchedulerRefined"]),
     "C12": (["Inv_C12"], ["P_C12"]), "C13": (["Inv_C13"], ["P_C13"]), "C14": (["Inv_C14"], []),
     "C15": (["Inv_C15"], ["P_C15"]), "C16": (["Inv_C16"], ["P_C16"]), "C19": ([], ["P_C19"]),
 }
@@ -334,6 +334,10 @@ def cfg_text(family, tier, prop):
         # the refinement of Ledger.tla costs about 3x: in the quick tier on one family per property
         inv = [x for x in inv if x != "LedgerInv"]
         prp = [x for x in prp if x != "LedgerRefined"]
+    if family in ("react", "react2") or (tier == "quick" and family != "lifecycle"):
+        # Scheduler.tla: not for the families with nested keeper calls (two scheduler steps in one); quick: one family
+        inv = [x for x in inv if x != "SchedulerInv"]
+        prp = [x for x in prp if x != "SchedulerRefined"]
     t += "INVARIANTS TypeOK " + " ".join(inv) + "\n"
     if prp:
         t += "PROPERTIES " + " ".join(prp) + "\n"
@@ -379,35 +383,48 @@ def simple_tlc(module, cfg, workdir, tag, files=()):
     return r.stdout
 
 
-def ledger_inductive(workdir):
-    """Apalache: the conservation laws of Ledger.tla (which Service.tla refines - PROPERTY LedgerRefined of the
-    MC_* runs) are an inductive invariant, for unbounded amounts: Init => IndInv and IndInv /\\ Next => IndInv'"""
+def apalache_inductive(workdir, module, cinit, init, indinit, nxt, inv):
+    """Apalache: `inv` is an inductive invariant of the abstract specification `module` (which Service.tla refines -
+    checked by TLC on the bounded families), for unbounded integers: Init => Inv and Inv /\\ Next => Inv'"""
     import shutil, subprocess, time
     spec = os.path.join(os.path.dirname(os.path.dirname(os.path.abspath(__file__))), "spec")
-    d = os.path.join(workdir, "apalache")
+    d = os.path.join(workdir, "apalache-" + module)
     os.makedirs(d, exist_ok=True)
-    shutil.copy(os.path.join(spec, "Ledger.tla"), d)
+    shutil.copy(os.path.join(spec, module + ".tla"), d)
     res = []
-    for name, args in (("init", ["--init=LInit", "--length=0"]), ("step", ["--init=IndInit", "--length=1"])):
+    for name, args in (("init", ["--init=" + init, "--length=0"]), ("step", ["--init=" + indinit, "--length=1"])):
         t0 = time.time()
         try:
-            r = subprocess.run(["apalache-mc", "check", "--cinit=ConstInit", "--next=LNext", "--inv=IndInv",
+            r = subprocess.run(["apalache-mc", "check", "--cinit=" + cinit, "--next=" + nxt, "--inv=" + inv,
                                 "--out-dir=" + os.path.join(d, "out"), "--run-dir=" + os.path.join(d, "run-" + name)] + args
-                               + ["Ledger.tla"], cwd=d, stdout=subprocess.PIPE, stderr=subprocess.STDOUT, text=True, timeout=900)
+                               + [module + ".tla"], cwd=d, stdout=subprocess.PIPE, stderr=subprocess.STDOUT, text=True, timeout=900)
             out = r.stdout
         except (subprocess.TimeoutExpired, FileNotFoundError) as e:
-            raise RuntimeError("apalache did not finish on Ledger.tla (%s): %s" % (name, e))
+            raise RuntimeError("apalache did not finish on %s.tla (%s): %s" % (module, name, e))
         if "The outcome is: NoError" not in out:
-            raise RuntimeError("Ledger.tla: the conservation laws are not inductive (%s) - a defect of the specification:\n%s"
-                               % (name, out[-3000:]))
-        res.append({"obligation": name, "outcome": "NoError", "wall_s": round(time.time() - t0, 1)})
+            raise RuntimeError("%s.tla: %s is not inductive (%s) - a defect of the specification:\n%s"
+                               % (module, inv, name, out[-3000:]))
+        res.append({"module": module, "obligation": name, "outcome": "NoError", "wall_s": round(time.time() - t0, 1)})
     shutil.rmtree(d, ignore_errors=True)
     return res
+
+
+def ledger_inductive(workdir):
+    return apalache_inductive(workdir, "Ledger", "ConstInit", "LInit", "IndInit", "LNext", "IndInv")
+
+
+def scheduler_inductive(workdir):
+    return apalache_inductive(workdir, "Scheduler", "SConstInit", "SInit", "SIndInit", "SNext", "SchedInv")
 
 
 def extra_checks(prop, tier, seed, workdir, drive, build=None):
     import re, shutil
     verif = os.path.dirname(os.path.dirname(os.path.abspath(__file__)))
+    if prop == "C11":
+        return {"ledger_inductive_invariant": scheduler_inductive(workdir),
+                "rule": "Scheduler.tla (contexts, their lifecycle state and cadence terms, their pending event in either queue) is "
+                        "refined by Service.tla (TLC, PROPERTY SchedulerRefined on the families without nested keeper calls) and "
+                        "C11's structural invariant is inductive there (Apalache, unbounded heights, 3 contexts)."}
     if prop in ("C01", "C03"):
         return {"ledger_inductive_invariant": ledger_inductive(workdir),
                 "rule": "Ledger.tla (escrow backing, custody of deposits, no coin created) is refined by Service.tla "
